@@ -6,6 +6,7 @@
 
     The same definitions are evaluated by [vm_compute] inside coqc (sample) and, extracted to
     OCaml, on the whole stream ([Extract/C02Extract.v]). *)
+From DL Require Model.StringLit.
 From DL Require Import Lib.Bytes Model.Lexer Model.DenseGen Model.Precedence Model.C02Spec.
 Open Scope N_scope.
 
@@ -251,3 +252,32 @@ Definition scheck_case (c : scase) : bool :=
 Definition sdiag_bytes (c : scase) : bytes :=
   (if boundary_ok (s_exprend c) (s_a c) (s_b c) (s_dense c) then [] else of_string "BOUNDARY-DENSE ") ++
   (if boundary_ok (s_exprend c) (s_a c) (s_b c) (s_readable c) then [] else of_string "BOUNDARY-READABLE ").
+
+(** * string literals next to other tokens (long brackets)
+
+    One case = one string VALUE, written as the only string of a small tree (return value, index
+    key, call argument, ...): the reference lexer must read exactly ONE string token from the text
+    and the reference decoder of C13 ([StringLit.decode_literal], Luau escapes) must decode that
+    token to the value. *)
+Record vcase := { v_value : bytes; v_dense : bytes; v_readable : bytes }.
+
+Definition one_string_ok (value text : bytes) : bool :=
+  match lex text with
+  | Some toks =>
+    match filter (fun t => tkind_eqb (fst t) TString) toks with
+    | [(_, s)] =>
+      match StringLit.decode_literal true s with
+      | Some v => bytes_eqb v value
+      | None => false
+      end
+    | _ => false
+    end
+  | None => false
+  end.
+
+Definition vcheck_case (c : vcase) : bool :=
+  one_string_ok (v_value c) (v_dense c) && one_string_ok (v_value c) (v_readable c).
+
+Definition vdiag_bytes (c : vcase) : bytes :=
+  (if one_string_ok (v_value c) (v_dense c) then [] else of_string "STRING-DENSE ") ++
+  (if one_string_ok (v_value c) (v_readable c) then [] else of_string "STRING-READABLE ").
